@@ -10,6 +10,8 @@
 
 package doccomposer
 
+//@ spec func inStrings(l []string, x string) bool = exists r int :: 0 <= r && r < len(l) && l[r] == x
+
 //@ func deepCopy(doc) (ret, err)
 //@   modifies nothing
 //@   ensures [atomic] (err != nil ==> ret == nil) && (err == nil ==> ret != nil)
@@ -43,11 +45,30 @@ package doccomposer
 //@   ensures [result] err == nil && ret == doc
 //@   loop 0 invariant [own] newPublicKeys == nil || fresh(newPublicKeys)
 
+// C10 remove-public-keys: delete by id, ignore unknown ids. K: the keys of the document before, S: the
+// set of ids to remove, N: the list stored afterwards. Every entry of N is a key of K, no entry of N
+// has an id in S, and every key of K whose id is not in S is an entry of N.
 //@ func applyRemovePublicKeys(doc, entry) (ret, err)
 //@   requires doc != nil
 //@   modifies mapcontent(doc)
+// (what the list parsers and the set builder guarantee about their results is not needed here)
+//@   hide document.ParsePublicKeys[nonlist, all]
+//@   hide document.ParseServices[nonlist, all]
+//@   hide document.StringArray[nonlist, bound, strings, all]
+//@   hide sliceToMap[members, contains]
+//@   let K := document.ParsePublicKeys(doc["publicKey"])
+//@   let S := sliceToMap(document.StringArray(entry))
 //@   ensures [result] err == nil && ret == doc
+//@   ensures [list] typeis(doc["publicKey"], []interface{})
+//@   ensures [subset] forall a int :: 0 <= a && a < len(doc["publicKey"].([]interface{})) ==>
+//@        (exists j int :: 0 <= j && j < len(K) && !has(S, document.strEntry(K[j], "id")) && doc["publicKey"].([]interface{})[a] == any(map[string]interface{}(K[j])))
+//@   ensures [keeps] forall j int :: 0 <= j && j < len(K) && !has(S, document.strEntry(K[j], "id")) ==>
+//@        (exists a int :: 0 <= a && a < len(doc["publicKey"].([]interface{})) && doc["publicKey"].([]interface{})[a] == any(map[string]interface{}(K[j])))
 //@   loop 0 invariant [own] newPublicKeys == nil || fresh(newPublicKeys)
+//@   loop 0 invariant [subset] $k <= len(K) && keysToRemove == S && (forall a int :: 0 <= a && a < len(newPublicKeys) ==>
+//@        (exists j int :: 0 <= j && j < $k && !has(S, document.strEntry(K[j], "id")) && newPublicKeys[a] == any(map[string]interface{}(K[j]))))
+//@   loop 0 invariant [keeps] forall j int :: 0 <= j && j < $k && !has(S, document.strEntry(K[j], "id")) ==>
+//@        (exists a int :: 0 <= a && a < len(newPublicKeys) && newPublicKeys[a] == any(map[string]interface{}(K[j])))
 
 //@ func applyAddServiceEndpoints(doc, entry) (ret, err)
 //@   requires doc != nil
@@ -55,11 +76,28 @@ package doccomposer
 //@   ensures [result] err == nil && ret == doc
 //@   loop 0 invariant [own] newServices == nil || fresh(newServices)
 
+// C10 remove-services: as remove-public-keys, on the service list
 //@ func applyRemoveServiceEndpoints(doc, entry) (ret, err)
 //@   requires doc != nil
 //@   modifies mapcontent(doc)
+// (what the list parsers and the set builder guarantee about their results is not needed here)
+//@   hide document.ParsePublicKeys[nonlist, all]
+//@   hide document.ParseServices[nonlist, all]
+//@   hide document.StringArray[nonlist, bound, strings, all]
+//@   hide sliceToMap[members, contains]
+//@   let K := document.ParseServices(doc["service"])
+//@   let S := sliceToMap(document.StringArray(entry))
 //@   ensures [result] err == nil && ret == doc
+//@   ensures [list] typeis(doc["service"], []interface{})
+//@   ensures [subset] forall a int :: 0 <= a && a < len(doc["service"].([]interface{})) ==>
+//@        (exists j int :: 0 <= j && j < len(K) && !has(S, document.strEntry(K[j], "id")) && doc["service"].([]interface{})[a] == any(map[string]interface{}(K[j])))
+//@   ensures [keeps] forall j int :: 0 <= j && j < len(K) && !has(S, document.strEntry(K[j], "id")) ==>
+//@        (exists a int :: 0 <= a && a < len(doc["service"].([]interface{})) && doc["service"].([]interface{})[a] == any(map[string]interface{}(K[j])))
 //@   loop 0 invariant [own] newServices == nil || fresh(newServices)
+//@   loop 0 invariant [subset] $k <= len(K) && servicesToRemove == S && (forall a int :: 0 <= a && a < len(newServices) ==>
+//@        (exists j int :: 0 <= j && j < $k && !has(S, document.strEntry(K[j], "id")) && newServices[a] == any(map[string]interface{}(K[j]))))
+//@   loop 0 invariant [keeps] forall j int :: 0 <= j && j < $k && !has(S, document.strEntry(K[j], "id")) ==>
+//@        (exists a int :: 0 <= a && a < len(newServices) && newServices[a] == any(map[string]interface{}(K[j])))
 
 //@ func applyAddAlsoKnownAs(doc, entry) (ret, err)
 //@   requires doc != nil
@@ -67,44 +105,92 @@ package doccomposer
 //@   ensures [result] err == nil && ret == doc
 //@   loop 0 invariant [own] newURIs == nil || fresh(newURIs)
 
+// C10 remove-also-known-as: ordered set difference. K: the URIs before, S: the set to remove
 //@ func applyRemoveAlsoKnownAs(doc, entry) (ret, err)
 //@   requires doc != nil
 //@   modifies mapcontent(doc)
+// (what the list parsers and the set builder guarantee about their results is not needed here)
+//@   hide document.ParsePublicKeys[nonlist, all]
+//@   hide document.ParseServices[nonlist, all]
+//@   hide document.StringArray[nonlist, bound, strings, all]
+//@   hide sliceToMap[members, contains]
+//@   let K := document.StringArray(doc["alsoKnownAs"])
+//@   let S := sliceToMap(document.StringArray(entry))
 //@   ensures [result] err == nil && ret == doc
+//@   ensures [list] typeis(doc["alsoKnownAs"], []interface{})
+//@   ensures [subset] forall a int :: 0 <= a && a < len(doc["alsoKnownAs"].([]interface{})) ==>
+//@        (exists j int :: 0 <= j && j < len(K) && !has(S, K[j]) && doc["alsoKnownAs"].([]interface{})[a] == any(K[j]))
+//@   ensures [keeps] forall j int :: 0 <= j && j < len(K) && !has(S, K[j]) ==>
+//@        (exists a int :: 0 <= a && a < len(doc["alsoKnownAs"].([]interface{})) && doc["alsoKnownAs"].([]interface{})[a] == any(K[j]))
 //@   loop 0 invariant [own] newURIs == nil || fresh(newURIs)
+//@   loop 0 invariant [subset] $k <= len(K) && urisToRemove == S && (forall a int :: 0 <= a && a < len(newURIs) ==>
+//@        (exists j int :: 0 <= j && j < $k && !has(S, K[j]) && newURIs[a] == any(K[j])))
+//@   loop 0 invariant [keeps] forall j int :: 0 <= j && j < $k && !has(S, K[j]) ==>
+//@        (exists a int :: 0 <= a && a < len(newURIs) && newURIs[a] == any(K[j]))
 
+// C10: replace by id, in place: every entry with the id of `key` becomes `key`, every other entry
+// (and the order of all entries) stays
 //@ func updateKey(keys, key)
 //@   modifies elems(keys)
+//@   ensures [replace] forall i int :: 0 <= i && i < len(keys) ==>
+//@        keys[i] == ite(document.strEntry(old(keys[i]), "id") == document.strEntry(key, "id"), key, old(keys[i]))
+//@   loop 0 invariant [done] forall i int :: 0 <= i && i < $k ==>
+//@        keys[i] == ite(document.strEntry(old(keys[i]), "id") == document.strEntry(key, "id"), key, old(keys[i]))
+//@   loop 0 invariant [todo] forall i int :: $k <= i && i < len(keys) ==> keys[i] == old(keys[i])
 
 //@ func updateService(services, service)
 //@   modifies elems(services)
+//@   ensures [replace] forall i int :: 0 <= i && i < len(services) ==>
+//@        services[i] == ite(document.strEntry(old(services[i]), "id") == document.strEntry(service, "id"), service, old(services[i]))
+//@   loop 0 invariant [done] forall i int :: 0 <= i && i < $k ==>
+//@        services[i] == ite(document.strEntry(old(services[i]), "id") == document.strEntry(service, "id"), service, old(services[i]))
+//@   loop 0 invariant [todo] forall i int :: $k <= i && i < len(services) ==> services[i] == old(services[i])
 
+// the list stored in the document has the same entries in the same order
 //@ func convertPublicKeys(pubKeys) (values)
 //@   modifies nothing
 //@   ensures [own] values == nil || fresh(values)
+//@   ensures [same] len(values) == len(pubKeys) && (forall i int :: 0 <= i && i < len(pubKeys) ==> values[i] == any(map[string]interface{}(pubKeys[i])))
 //@   loop 0 invariant [own] values == nil || fresh(values)
+//@   loop 0 invariant [same] len(values) == $k && $k <= len(pubKeys) && (forall i int :: 0 <= i && i < $k ==> values[i] == any(map[string]interface{}(pubKeys[i])))
 
 //@ func convertServices(services) (values)
 //@   modifies nothing
 //@   ensures [own] values == nil || fresh(values)
+//@   ensures [same] len(values) == len(services) && (forall i int :: 0 <= i && i < len(services) ==> values[i] == any(map[string]interface{}(services[i])))
 //@   loop 0 invariant [own] values == nil || fresh(values)
+//@   loop 0 invariant [same] len(values) == $k && $k <= len(services) && (forall i int :: 0 <= i && i < $k ==> values[i] == any(map[string]interface{}(services[i])))
 
 //@ func interfaceArray(values) (iArr)
 //@   modifies nothing
 //@   ensures [own] iArr == nil || fresh(iArr)
+//@   ensures [same] len(iArr) == len(values) && (forall i int :: 0 <= i && i < len(values) ==> iArr[i] == any(values[i]))
 //@   loop 0 invariant [own] iArr == nil || fresh(iArr)
+//@   loop 0 invariant [same] len(iArr) == $k && $k <= len(values) && (forall i int :: 0 <= i && i < $k ==> iArr[i] == any(values[i]))
 
+// the set of the listed strings (a function of the list: contracts refer to it as sliceToMap(l))
 //@ func sliceToMap(ids) (values)
+//@   pure
 //@   modifies nothing
 //@   ensures [own] values != nil && fresh(values)
+//@   ensures [members] forall x string :: has(values, x) <==> (exists i int :: 0 <= i && i < len(ids) && ids[i] == x)
+//@   ensures [contains] forall i int :: 0 <= i && i < len(ids) ==> has(values, ids[i])
 //@   loop 0 invariant [own] values != nil && fresh(values)
+//@   loop 0 invariant [members] $k <= len(ids) && (forall x string :: has(values, x) <==> (exists i int :: 0 <= i && i < $k && ids[i] == x))
 
+// the set of the ids of the listed keys
 //@ func sliceToMapPK(publicKeys) (values)
 //@   modifies nothing
 //@   ensures [own] values != nil && fresh(values)
+//@   ensures [members] forall x string :: has(values, x) <==> (exists i int :: 0 <= i && i < len(publicKeys) && document.strEntry(publicKeys[i], "id") == x)
+//@   ensures [contains] forall i int :: 0 <= i && i < len(publicKeys) ==> has(values, document.strEntry(publicKeys[i], "id"))
 //@   loop 0 invariant [own] values != nil && fresh(values)
+//@   loop 0 invariant [members] $k <= len(publicKeys) && (forall x string :: has(values, x) <==> (exists i int :: 0 <= i && i < $k && document.strEntry(publicKeys[i], "id") == x))
 
 //@ func sliceToMapServices(services) (values)
 //@   modifies nothing
 //@   ensures [own] values != nil && fresh(values)
+//@   ensures [members] forall x string :: has(values, x) <==> (exists i int :: 0 <= i && i < len(services) && document.strEntry(services[i], "id") == x)
+//@   ensures [contains] forall i int :: 0 <= i && i < len(services) ==> has(values, document.strEntry(services[i], "id"))
 //@   loop 0 invariant [own] values != nil && fresh(values)
+//@   loop 0 invariant [members] $k <= len(services) && (forall x string :: has(values, x) <==> (exists i int :: 0 <= i && i < $k && document.strEntry(services[i], "id") == x))
